@@ -5,9 +5,13 @@
           a disagreement is classified by asking which SINGLE repair flag of the model (a flag that is
           off in the tree) makes the machine agree with the oracle on this case -> `bad <flag> ...`;
           `bad multi` when only all repairs together do, `bad unclassified` otherwise.
+          A disagreement of the tree configuration INSIDE a fragment of Spec/TypeCheckFrag.lean is never filed
+          under a known finding: `bad f1-theorem-violated` (fragment F1: machine = specification is proved, so
+          this means model and real code differ) / `bad f2-conjecture-violated` (fragment F2: conjectured).
 -/
 import Driver.Common
 import Driver.TypeCheckCodec
+import Parsley.Spec.TypeCheckFrag
 namespace Driver.C08
 open Parsley Parsley.TC Driver Driver.TCCodec
 
@@ -73,6 +77,10 @@ def judge (line impl : String) : String :=
     if got == "hang" then "bad nontermination impl=hang" else
     if got.startsWith "crash:" then s!"bad crash impl={got}" else
     if got == want then "ok"
+    else if cfgOf c.tag == Fix.tree && Frag.inF1 c.ctx c.chk then
+      s!"bad f1-theorem-violated oracle={want} impl={got}"
+    else if cfgOf c.tag == Fix.tree && Frag.inF2 c.ctx c.chk then
+      s!"bad f2-conjecture-violated oracle={want} impl={got}"
     else s!"bad {classify c want} oracle={want} impl={got}"
 
 def gen (seed n : Nat) (tier : String) (emit : String → IO Unit) : IO Unit := do
